@@ -26,6 +26,8 @@ CLAIMED = {
             'operator with arbitrary operand values/truths; and verdict invariance for every second trace within |rho|; discrete offline/online and dense at symbolic tau'),
     'C08': ('6.C08', 'every spelling of each duration (unit on both/one end, mixed, default unit, constants, period in another unit) is enumerated; z3 shows each '
             'equals the README semantics of the sample-level bound for all values (offline, online, pastified); non-multiples raise RTAMTException; dense time at symbolic tau'),
+    'C09': ('6.C09', 'decompositions (add_sub_spec, several assertions, nested sub-specs, constants as operands/bounds) are enumerated; z3 shows the modular and the '
+            'inlined monitor return the same values for all samples, for the four monitor kinds and after pastify()'),
 }
 NA = {
     'C14': 'the quantifier ranges over strings and every string is consumed by the ANTLR4 ATN interpreter, which cannot be encoded or '
